@@ -113,6 +113,13 @@ def cmp_same(obs, ref):
         return tolerance.compare(obs, ref, check_kind=False)
     if obs.dtype.kind not in 'fcbiu':
         return VIOLATION, f'dtype {obs.dtype} where {ref.dtype} expected'
+    if obs.dtype.kind == 'c' or ref.dtype.kind == 'c':
+        # compare real and imaginary parts as floats (complex division by a subnormal scale yields nan)
+        obs, ref = obs.astype(complex), ref.astype(complex)
+        obs, ref = numpy.stack([obs.real, obs.imag]), numpy.stack([ref.real, ref.imag])
+    with numpy.errstate(all='ignore'):
+        if ((obs == ref) | ((obs != obs) & (ref != ref))).all():
+            return PASS, ''
     fo, fr = numpy.isfinite(obs), numpy.isfinite(ref)
     if (fo != fr).any():
         return VIOLATION, 'non-finite pattern differs'
@@ -128,6 +135,7 @@ def cmp_same(obs, ref):
     s = float(numpy.max(numpy.abs(r)))
     if s == 0 or not numpy.isfinite(s):
         s = 1.
+    s = max(s, 1e-290)
     with numpy.errstate(all='ignore'):
         return tolerance.compare(o / s, r / s, check_kind=False)
 
@@ -139,6 +147,9 @@ def cmp_rel(obs, ref, rtol_pass=1e-9, rtol_viol=1e-5):
         return VIOLATION, f'shape {obs.shape} != expected {ref.shape}'
     if obs.dtype.kind not in 'fcbiu':
         return VIOLATION, f'dtype {obs.dtype}'
+    with numpy.errstate(all='ignore'):
+        if ((obs == ref) | ((obs != obs) & (ref != ref))).all():
+            return PASS, ''
     fo, fr = numpy.isfinite(obs), numpy.isfinite(ref)
     if (fo != fr).any():
         return VIOLATION, 'non-finite pattern differs'
